@@ -11,10 +11,13 @@ import Asn1Verif.Codegen.TagsLemmas
                                `root_before_extension`, `set_order_stable`
   * automatic tags             `automatic_tags_iff`, `automatic_set_order_textual`
   * SEQUENCE                   `sequence_order_textual`, `sequence_pipeline_order_textual`
-  * TagResolver                `resolver_reference`, `resolver_choice_is_minimum`,
-                               `resolver_fuel_independent`, `resolver_total_on_acyclic`,
-                               `resolver_default_fuel_suffices`
-  * whole pipeline             `pipeline_never_panics`, `pipeline_order_perm`
+  * TagResolver                `resolver_reference`, `resolver_cycle_has_no_tag`,
+                               `resolver_choice_is_minimum`, `resolver_fuel_independent`,
+                               `resolver_total` (every module, cyclic or not — the repaired
+                               resolver keeps a stack of the names being resolved),
+                               `resolver_default_fuel_suffices`, `resolver_unchanged_on_acyclic`
+                               (on acyclic modules the repaired resolver = the one without stack)
+  * whole pipeline             `pipeline_terminates`, `pipeline_never_panics`, `pipeline_order_perm`
   * against X.680 end to end   `SetOrderCanonical` (full statement, FALSE for the current code:
                                `set_order_canonical_fails_choice`, `…_fails_marker`),
                                `set_order_canonical_partial`
@@ -192,25 +195,41 @@ theorem sequence_pipeline_order_textual (env : Env) (c : Components) (em : Emitt
 
 /-! ### TagResolver -/
 
-/-- the type tag of an untagged reference is the tag of the referenced definition: its own tag if
-    it has one, else the tag of its body (references are followed) -/
-theorem resolver_reference (env : Env) (fuel : Nat) (n : String) (d : Def)
+/-- the type tag of an untagged reference to a name that is not being resolved already is the tag
+    of the referenced definition: its own tag if it has one, else the tag of its body (references
+    are followed, the name goes on the stack) -/
+theorem resolver_reference (env : Env) (fuel : Nat) (vis : List String) (n : String) (d : Def)
+    (hv : vis.contains n = false) (h : env.lookup n = some d) :
+    resolveTypeTag env (fuel + 1) vis (.ref n) =
+      (match d.tag with
+       | some t => some (some t)
+       | none => resolveTypeTag env fuel (n :: vis) d.ty) := by
+  simp only [resolveTypeTag, hv, h]
+  cases d.tag <;> rfl
+
+/-- … and `resolve_tag` starts with an empty stack -/
+theorem resolver_reference_top (env : Env) (fuel : Nat) (n : String) (d : Def)
     (h : env.lookup n = some d) :
     resolveTag env (fuel + 1) n =
       (match d.tag with
        | some t => some (some t)
-       | none => resolveTypeTag env fuel d.ty) := by
-  simp only [resolveTag, resolveTypeTag, h]
-  cases d.tag <;> rfl
+       | none => resolveTypeTag env fuel [n] d.ty) :=
+  resolver_reference env fuel [] n d rfl h
+
+/-- **a reference that leads back to a name whose tag is being resolved has no tag** (`None`);
+    the resolver returns instead of recursing for ever -/
+theorem resolver_cycle_has_no_tag (env : Env) (fuel : Nat) (vis : List String) (n : String)
+    (h : n ∈ vis) : resolveTypeTag env (fuel + 1) vis (.ref n) = some none :=
+  resolveTypeTag_visiting env fuel vis n h
 
 /-- an untagged CHOICE resolves to the smallest tag among its root alternatives -/
-theorem resolver_choice_is_minimum (env : Env) (fuel : Nat) (alts : List (Option Tag × Ty))
-    (e : Option Nat) (m : Tag)
-    (h : resolveTypeTag env (fuel + 1) (.choice alts e) = some (some m)) :
-    ∃ ts, collectTags (resolveTypeTag env fuel) (rootAlts alts e) = some (some ts) ∧
+theorem resolver_choice_is_minimum (env : Env) (fuel : Nat) (vis : List String)
+    (alts : List (Option Tag × Ty)) (e : Option Nat) (m : Tag)
+    (h : resolveTypeTag env (fuel + 1) vis (.choice alts e) = some (some m)) :
+    ∃ ts, collectTags (resolveTypeTag env fuel vis) (rootAlts alts e) = some (some ts) ∧
       m ∈ ts ∧ ∀ t ∈ ts, m.le t = true := by
   simp only [resolveTypeTag] at h
-  cases hc : collectTags (resolveTypeTag env fuel) (rootAlts alts e) with
+  cases hc : collectTags (resolveTypeTag env fuel vis) (rootAlts alts e) with
   | none => simp [hc] at h
   | some y =>
     cases y with
@@ -219,26 +238,40 @@ theorem resolver_choice_is_minimum (env : Env) (fuel : Nat) (alts : List (Option
       simp only [hc, Option.some.injEq] at h
       exact ⟨ts, rfl, minTag_mem ts m h, minTag_le ts m h⟩
 
-/-- the answer of the resolver does not depend on the fuel -/
-theorem resolver_fuel_independent (env : Env) (f f' : Nat) (hff : f ≤ f') (t : Ty)
-    (x : Option Tag) (h : resolveTypeTag env f t = some x) : resolveTypeTag env f' t = some x :=
-  resolveTypeTag_mono env f f' hff t x h
+/-- the answer of the resolver does not depend on the fuel (a device of the mirror) -/
+theorem resolver_fuel_independent (env : Env) (f f' : Nat) (hff : f ≤ f') (vis : List String)
+    (t : Ty) (x : Option Tag) (h : resolveTypeTag env f vis t = some x) :
+    resolveTypeTag env f' vis t = some x :=
+  resolveTypeTag_mono env f f' hff vis t x h
 
-/-- **total on acyclic reference graphs**: if some rank function decreases along every reference
-    of every definition, the resolver answers for every type as soon as the fuel reaches the
-    explicit bound `depth t + (largest rank referenced + 1) · (deepest definition + 1)` -/
-theorem resolver_total_on_acyclic (env : Env) (r : String → Nat) (hac : Acyclic env r)
-    (fuel : Nat) (t : Ty) (hf : fuelBound r env t ≤ fuel) :
-    ∃ x, resolveTypeTag env fuel t = some x :=
-  resolveTypeTag_total env r hac fuel t hf
+/-- **total**: for EVERY module — reference cycles included —, every stack and every type the
+    resolver answers as soon as the fuel reaches the explicit bound
+    `depth t + (definitions not on the stack) · (deepest definition + 1)` -/
+theorem resolver_total (env : Env) (fuel : Nat) (vis : List String) (t : Ty)
+    (hf : fuelBound env vis t ≤ fuel) : ∃ x, resolveTypeTag env fuel vis t = some x :=
+  resolveTypeTag_total env fuel vis t hf
 
-/-- the fuel the compiled driver uses -/
-theorem resolver_default_fuel_suffices (env : Env) (r : String → Nat) (hac : Acyclic env r)
-    (hr : ∀ n, r n ≤ env.length) (t : Ty) :
-    ∃ x, resolveTypeTag env (defaultFuel env t) t = some x :=
-  defaultFuel_sufficient env r hac hr t
+/-- **the repair changes nothing where the resolver used to answer**: on an acyclic module (some
+    rank function decreases along every reference of every definition) the stack is never hit and
+    the repaired resolver computes, with the same fuel, exactly what the resolver without a stack
+    (`resolveTypeTagUnrepaired`, the code before the repair) computed -/
+theorem resolver_unchanged_on_acyclic (env : Env) (r : String → Nat) (hac : Acyclic env r)
+    (fuel : Nat) (t : Ty) :
+    resolveTypeTag env fuel [] t = resolveTypeTagUnrepaired env fuel t :=
+  resolveTypeTag_eq_unrepaired env r hac fuel [] t (by intro n hn; cases hn)
+
+/-- the fuel the compiled driver uses is enough, for every module and type -/
+theorem resolver_default_fuel_suffices (env : Env) (t : Ty) :
+    ∃ x, resolveTypeTag env (defaultFuel env t) [] t = some x :=
+  defaultFuel_sufficient env t
 
 /-! ### the whole pipeline -/
+
+/-- **stage 1 always terminates**: the pipeline answers (an emitted type, the compile error of
+    stage 2, or the one panic) for every module, reference cycles included -/
+theorem pipeline_terminates (env : Env) (o : EncodingOrdering) (c : Components) :
+    ∃ r, emit env o c = some r :=
+  emit_isSome env o c
 
 /-- the two-stage pipeline never panics, except for an extension marker in an empty list
     (`SET { ... }`); in particular "Field .. is missing a tag assignment" and "Complex type ..
@@ -290,8 +323,8 @@ def setMarkerFirst : Components :=
 /-- evaluation of a concrete instance (the sort is `List.mergeSort`, defined by well-founded
     recursion, so `simp` unfolds it instead of `decide`) -/
 macro "eval_tags" : tactic => `(tactic|
-  simp [emit, stage1Terminates, allSome, toRField, rustTypeTag, resolveTag, resolveTypeTag,
-    collectTags, rootAlts, minTag, Env.lookup, defaultFuel, envDepth, Ty.depth, altsDepth, Ty.refs,
+  simp [emit, allSome, toRField, rustTypeTag, resolveTag, resolveTypeTag,
+    collectTags, rootAlts, minTag, Env.lookup, defaultFuel, envDepth, Ty.depth, altsDepth,
     rkindOf, defaultTag, extensionAfter, writeConstraints, assignImplicitTags, tagConsts, tagConst,
     constDefaultTag, emitOrder, sortFieldsCanonically, prepare, sortKeyed, List.mergeSort,
     List.MergeSort.Internal.splitInTwo, keyLe, optTagLe, Tag.le, extendedFlag, Tag.application,
@@ -433,29 +466,58 @@ def rfUntagged : RField :=
 def rfTagged : RField := { rfUntagged with tag := some (Tag.priv 1) }
 example : NoneTagged [rfUntagged, rfUntagged] := by decide
 example : ¬ NoneTagged [rfUntagged, rfTagged] := by decide
--- an acyclic module that is not listed in dependency order, with its rank function
+-- a module that is not listed in dependency order
 def envChain : Env :=
   [{ name := "A", tag := none, ty := .ref "B" },
    { name := "B", tag := none, ty := .choice [(none, .ref "C"), (some (Tag.priv 1), .builtin .null)] none },
    { name := "C", tag := none, ty := .builtin .integer }]
-def rankChain (n : String) : Nat := if n = "A" then 2 else if n = "B" then 1 else 0
-example : Acyclic envChain rankChain ∧ ∀ n, rankChain n ≤ envChain.length := by
-  refine ⟨by unfold Acyclic; decide, ?_⟩
-  intro n; unfold rankChain
-  split
-  · decide
-  · split <;> decide
-example : resolveTypeTag envChain (defaultFuel envChain (.ref "A")) (.ref "A")
+example : resolveTypeTag envChain (defaultFuel envChain (.ref "A")) [] (.ref "A")
     = some (some (Tag.universal 2)) := by decide
--- a reference cycle that is followed exhausts every amount of fuel tried (the real resolver
--- overflows its stack)
+-- `resolver_total`: the bound for `A` in `envChain` (1 + 3 · (2 + 1) = 10) and the least amount
+-- that works (5)
+example : fuelBound envChain [] (.ref "A") = 10 ∧
+    resolveTypeTag envChain 4 [] (.ref "A") = none ∧
+    resolveTypeTag envChain 5 [] (.ref "A") = some (some (Tag.universal 2)) := by decide
 -- `resolver_reference` / `resolver_choice_is_minimum`: instances of the hypotheses
-example : (envChain.lookup "B").map (·.name) = some "B" := by decide
-example : resolveTypeTag envChain 5 envChain[1].ty = some (some (Tag.universal 2)) := by decide
+example : (envChain.lookup "B").map (·.name) = some "B" ∧ ["A"].contains "B" = false := by decide
+example : resolveTypeTag envChain 5 ["B", "A"] envChain[1].ty = some (some (Tag.universal 2)) := by
+  decide
+-- `resolver_unchanged_on_acyclic`: `envChain` is acyclic, with its rank function; on the cyclic
+-- `envRec` below the resolver without a stack exhausts every amount of fuel tried
+def rankChain (n : String) : Nat := if n = "A" then 2 else if n = "B" then 1 else 0
+example : Acyclic envChain rankChain := by unfold Acyclic; decide
+example : resolveTypeTagUnrepaired envChain 5 (.ref "A") = some (some (Tag.universal 2)) := by decide
+example : resolveTypeTagUnrepaired
+    [{ name := "R", tag := none, ty := .choice [(none, .ref "R"), (none, .builtin .integer)] none }]
+    50 (.ref "R") = none := by decide
+-- reference cycles (the witnesses of the former finding tags.cyclic-abort: the real resolver
+-- overflowed its stack) now have a defined answer: no tag
+/-- `R ::= CHOICE { x R, y INTEGER }` -/
 def envRec : Env :=
   [{ name := "R", tag := none,
      ty := .choice [(none, .ref "R"), (none, .builtin .integer)] none }]
-example : resolveTypeTag envRec 50 (.ref "R") = none := by decide
+/-- `A ::= B`, `B ::= A` -/
+def envLoop : Env :=
+  [{ name := "A", tag := none, ty := .ref "B" }, { name := "B", tag := none, ty := .ref "A" }]
+example : resolveTypeTag envRec (defaultFuel envRec (.ref "R")) [] (.ref "R") = some none := by
+  decide
+example : resolveTypeTag envLoop (defaultFuel envLoop (.ref "A")) [] (.ref "A") = some none ∧
+    resolveTypeTag [{ name := "A", tag := none, ty := .ref "A" }] 2 [] (.ref "A") = some none := by
+  decide
+-- a cycle that is cut by explicit tags is not followed: `R ::= CHOICE { x [0] R, y [1] INTEGER }`
+example : resolveTypeTag
+    [{ name := "R", tag := none,
+       ty := .choice [(some (Tag.contextSpecific 0), .ref "R"),
+                      (some (Tag.contextSpecific 1), .builtin .integer)] none }]
+    3 [] (.ref "R") = some (some (Tag.contextSpecific 0)) := by decide
+-- `resolver_cycle_has_no_tag`: an instance of the hypothesis
+example : "R" ∈ ["R"] := by decide
+-- the whole pipeline on the first witness, `SET { a R, b [APPLICATION 1] BOOLEAN }`: `complex(R)`
+-- without a tag is refused by stage 2 (compile error), the process does not abort
+example : emit envRec .sort
+    { fields := [{ name := "a", tag := none, ty := .ref "R" },
+                 { name := "b", tag := some (Tag.application 1), ty := .builtin .boolean }] }
+    = some (.err .other) := by unfold envRec; eval_tags
 -- stability: two components with the same key stay in textual order
 def rfX : RField :=
   { name := "x", tag := some (Tag.universal 1), typeTag := none, kind := .complex,
